@@ -162,7 +162,9 @@ func (x *Exec) atLoopHeader(st *State, fr *Frame, h *ssa.BasicBlock, ord int, pr
 		al.decVal = x.toInt(st, env2.eval(spec.Decreases.E))
 	}
 	// vacuity guard: invariant (and guard) satisfiable
-	x.obls = append(x.obls, &Obligation{Name: fmt.Sprintf("%s#cover:loop-%s@%d", x.unit, key, len(x.obls)), Unit: x.unit, Kind: "cover", Label: "loop-" + key, Hyps: st.pcList(), Goal: tTrue, Cover: true})
+	if x.coverBudget("loop-" + key) {
+		x.obls = append(x.obls, &Obligation{Name: fmt.Sprintf("%s#cover:loop-%s@%d", x.unit, key, len(x.obls)), Unit: x.unit, Kind: "cover", Label: "loop-" + key, Hyps: st.pcList(), Goal: tTrue, Cover: true})
+	}
 	return true
 }
 
